@@ -5,7 +5,10 @@ Fx(m, a, bb, s) == [main |-> m, A |-> a, B |-> bb, S |-> s]
 Vol(m, a, bb, s) == [main |-> m, A |-> a, B |-> bb, S |-> s]
 Rv(a, bb) == [A |-> a, B |-> bb]
 Scene(shape, snd, fx, vol, rv, send) ==
-  [shape |-> shape, trk |-> {"A", "B"}, snd |-> snd, fx |-> fx, vol |-> vol, rv |-> rv, send |-> send]
+  [shape |-> shape, trk |-> {"A", "B"}, snd |-> snd, fx |-> fx, vol |-> vol, rv |-> rv, send |-> send, send2 |-> FALSE, rv2 |-> Rv(-1, -1)]
+\* a second send track
+Scene2(shape, snd, fx, vol, rv, rv2) ==
+  [shape |-> shape, trk |-> {"A", "B"}, snd |-> snd, fx |-> fx, vol |-> vol, rv |-> rv, send |-> TRUE, send2 |-> TRUE, rv2 |-> rv2]
 \* families of scenes: both shapes x effect placements x muted branch x route tables
 QuickScenes ==
   { Scene(sh, {"s0", "s1", "s2"}, fx, vol, rv, TRUE) :
@@ -14,10 +17,16 @@ QuickScenes ==
       vol \in {Vol(1, 1, 1, 1), Vol(1, 0, 1, 1), Vol(1, 1, 1, 0)},
       rv \in {Rv(1, 1), Rv(1, -1), Rv(0, 1)} }
   \cup { Scene(sh, {"s1", "s2"}, Fx(TRUE, FALSE, TRUE, FALSE), Vol(1, 1, 1, 1), Rv(-1, -1), FALSE) : sh \in {"chain", "fork"} }
+  \cup { Scene2(sh, {"s0", "s1", "s2"}, Fx(FALSE, FALSE, FALSE, TRUE), Vol(1, 1, 1, 1), rv, rv2) :
+            sh \in {"chain", "fork"}, rv \in {Rv(1, 1), Rv(1, -1)}, rv2 \in {Rv(1, 1), Rv(-1, 1), Rv(1, -1)} }
 ThoroughScenes ==
   { Scene(sh, snd, fx, vol, rv, TRUE) :
       sh \in {"chain", "fork"}, snd \in {{"s0", "s1", "s2"}, {"s1", "s2"}, {"s2"}},
       fx \in {Fx(m, a, bb, s) : m, a, bb, s \in BOOLEAN},
       vol \in {Vol(1, 1, 1, 1), Vol(1, 0, 1, 1), Vol(1, 1, 0, 1), Vol(1, 1, 1, 0), Vol(0, 1, 1, 1)},
       rv \in {Rv(x, y) : x, y \in {-1, 0, 1}} }
+  \cup { Scene2(sh, snd, fx, Vol(1, 1, 1, 1), rv, rv2) :
+            sh \in {"chain", "fork"}, snd \in {{"s0", "s1", "s2"}, {"s1", "s2"}},
+            fx \in {Fx(FALSE, FALSE, FALSE, TRUE), Fx(TRUE, TRUE, FALSE, FALSE)},
+            rv \in {Rv(x, y) : x, y \in {-1, 0, 1}}, rv2 \in {Rv(x, y) : x, y \in {-1, 1}} }
 =============================================================================
